@@ -1,4 +1,5 @@
 import Rcgen.Proofs.CsrIssue
+import Rcgen.Model.CsrVerify
 /-
   C06 — CSR acceptance is sound and issuance binds the requester's key.
   Model: `parseCsr` (Model/CsrParse.lean) = csr.rs `from_der` after the third-party parse; the
@@ -251,5 +252,60 @@ example : (match parseCsr false true (fun _ _ _ _ => true)
     | .ok r => certInvalid r.params exIssuer == none && !certPanics r.params exIssuer &&
         r.params.sans == exReq.p.sans
     | .error _ => false) = true := by decide +kernel
+
+/-! ### which verifier's word is taken (Model/CsrVerify.lean = csr.rs:108-123, `verify_ecdsa_p521`) -/
+
+/-- **whose word is taken**: `from_der` counts a signature as verified when the third-party
+    verifier says so, or — in an aws-lc-rs build, after that verifier answered "unsupported
+    algorithm", for a request signed under ecdsa-with-SHA512 whose SubjectPublicKeyInfo algorithm
+    is exactly id-ecPublicKey / secp521r1 — when the back end's P-521 verification of the
+    embedded key octets over the same bytes says so; in no other case -/
+theorem own_verifier_only_for_labelled_p521 (p521 : Bool)
+    (tp : Bytes → Bytes → Bytes → Bytes → ThirdPartyVerdict) (own : Bytes → Bytes → Bytes → Bool)
+    (spki info algDer sig : Bytes) (h : rcgenVerify p521 tp own spki info algDer sig = true) :
+    tp spki info algDer sig = .ok ∨
+    (p521 = true ∧ tp spki info algDer sig = .unsupportedAlgorithm ∧
+     (algIdOid algDer).bind (sigAlgFromOid p521) = some .ecdsaP521 ∧
+     ∃ bits, spkiParts spki = some (encode (spkiAlgIdent .ecdsaP521), bits) ∧
+       own bits info sig = true) := by
+  unfold rcgenVerify at h
+  cases ht : tp spki info algDer sig with
+  | ok => exact Or.inl rfl
+  | failed => simp [ht] at h
+  | unsupportedAlgorithm =>
+    right
+    simp only [ht, Bool.and_eq_true, beq_iff_eq] at h
+    obtain ⟨⟨hp, halg⟩, hk⟩ := h
+    refine ⟨hp, rfl, halg, ?_⟩
+    cases hs : spkiParts spki with
+    | none => simp [hs] at hk
+    | some pr =>
+      obtain ⟨ka, kb⟩ := pr
+      simp only [hs, Bool.and_eq_true, beq_iff_eq] at hk
+      exact ⟨kb, by rw [hk.1], hk.2⟩
+
+/-- **acceptance with both verifiers explicit**: a request is accepted only if, on the embedded
+    SubjectPublicKeyInfo, the exact certificationRequestInfo bytes, the outer algorithm and the
+    signature bits of the input, one of the two verifiers — in the cases above — confirmed the
+    signature -/
+theorem accept_implies_verified_by_one_of_two (p521 crypto : Bool)
+    (tp : Bytes → Bytes → Bytes → Bytes → ThirdPartyVerdict) (own : Bytes → Bytes → Bytes → Bool)
+    (der : Bytes) (r : CsrParsed) (h : parseCsrWith p521 crypto tp own der = .ok r) :
+    ∃ info alg sig i, splitSigned der = some (info, alg, sig) ∧ decodeCsrInfo info = some i ∧
+      (tp i.spki info alg sig = .ok ∨
+       (p521 = true ∧ tp i.spki info alg sig = .unsupportedAlgorithm ∧
+        (algIdOid alg).bind (sigAlgFromOid p521) = some .ecdsaP521 ∧
+        ∃ bits, spkiParts i.spki = some (encode (spkiAlgIdent .ecdsaP521), bits) ∧
+          own bits info sig = true)) := by
+  obtain ⟨info, alg, sig, i, h1, h2, h3⟩ := accept_implies_verified p521 crypto _ der r h
+  exact ⟨info, alg, sig, i, h1, h2, own_verifier_only_for_labelled_p521 p521 tp own _ _ _ _ h3⟩
+
+/-- without aws-lc-rs the third-party verifier is the only one -/
+theorem ring_build_third_party_only (tp : Bytes → Bytes → Bytes → Bytes → ThirdPartyVerdict)
+    (own : Bytes → Bytes → Bytes → Bool) (spki info algDer sig : Bytes) :
+    rcgenVerify false tp own spki info algDer sig = (tp spki info algDer sig == .ok) := by
+  unfold rcgenVerify
+  cases tp spki info algDer sig <;> rfl
+
 
 end Rcgen.Theorems.C06
